@@ -1,4 +1,4 @@
-import Slock.Proofs.Engine2Drain
+import Slock.Proofs.Engine2FutSweep
 /-!
 # C17 — everything is reclaimed (lock records, reference counts, KeyCount)
 
@@ -25,8 +25,9 @@ no key has a value. Ingredients, each a theorem about every reachable state: `qu
 queue entries do not outlive the live ones — `currentLock = nil` ⇒ holder queue empty; a non-empty wait queue contains a live
 request), `nothing_leaks` (a record at count 0 is freed, a key record without records is unlinked; an expiry entry of a record that
 is not a hold is a tombstone), `tick_dead` (a sweep over tombstones only drops: nothing is re-armed, nothing fires, no deferral).
-What is assumed, not proved: that the remaining entries are scheduled in the FUTURE (`now < visit`; `Within`); an entry scheduled
-for a second the sweeper has already passed would never be visited. (Stage 1 proves this for live queued requests, C05 not-late.)
+`scheduled_in_future` (`run_fut`): in every reachable state every wheel entry is scheduled for a second the sweeper has not passed —
+so `drain_live` asks only for an upper bound `n` on how far ahead the remaining entries are scheduled, and `drain_live_total` takes
+`n` = `horizon` − `now` (the latest scheduled second) and has no hypothesis but "nothing is held or queued".
 
 `drain_tombstones` — the same without time: nothing held or queued and no wheel entry ⇒ no key record. `drain` — the earlier form
 (all queues empty and no wheel entry).
@@ -160,23 +161,85 @@ theorem drain_tombstones (now aofTime : Nat) (ops : List Op)
   have hd := run_dbq (DB.init now aofTime) ops (DBQ.init now aofTime)
   exact drain_core hd.dbt (queues_empty_of_no_live hd hl) hw
 
+/-- **Every wheel entry of every reachable state is scheduled in the future**: for a second the sweeper has not passed yet
+(`now < visit`; between operations the sweeper's next check second is `now + 1`). `AddTimeOut` / `AddExpried` schedule for the
+next check second at the earliest, and the sweep of second `c` leaves no entry for `c` behind: each is dropped, re-armed for a later
+second, or fired (and what the firing's wake pass arms is again for a later second). -/
+theorem scheduled_in_future (now aofTime : Nat) (ops : List Op) :
+    ∀ k ∈ (run (DB.init now aofTime) ops).keys, ∀ r ∈ k.recs,
+      (∀ s, r.tSched = some s → (run (DB.init now aofTime) ops).now < s.visit) ∧
+      (∀ s, r.eSched = some s → (run (DB.init now aofTime) ops).now < s.visit) := by
+  intro k hk r hr
+  have h := run_fut (DB.init now aofTime) ops (FutDB.init now aofTime)
+  refine ⟨fun s hs => ?_, fun s hs => ?_⟩
+  · rcases h.t k hk r hr s hs with h1 | ⟨_, h2⟩
+    · exact h1
+    · simp at h2
+  · rcases h.e k hk r hr s hs with h1 | ⟨_, h2⟩
+    · exact h1
+    · simp at h2
+
 /-- **Drain at the property's own hypothesis.** Take any reachable state in which nothing is held or queued any more (no lock record
-is a hold — depth > 0 — or a waiting request — `timeouted = false`); let `n` be such that every wheel entry still present is
-scheduled for one of the next `n` seconds. After `n` more seconds of server time (and nothing else) there is no key record,
-`KeyCount` is 0 and no key has a value: the tombstoned wheel entries are dropped one by one by the sweeps, each drop decrements its
-record's count, a record is freed at 0, and the key record is unlinked with its last record; the tombstoned queue entries are gone
-already (`queues_empty_of_no_live`). -/
+is a hold — depth > 0 — or a waiting request — `timeouted = false`), and any `n` such that no wheel entry still present is scheduled
+later than `n` seconds ahead. After `n` more seconds of server time (and nothing else) there is no key record, `KeyCount` is 0 and no
+key has a value: the tombstoned wheel entries are dropped one by one by the sweeps (every one of them is scheduled for a second still
+to come: `scheduled_in_future`), each drop decrements its record's count, a record is freed at 0, and the key record is unlinked with
+its last record; the tombstoned queue entries are gone already (`queues_empty_of_no_live`). -/
 theorem drain_live (now aofTime : Nat) (ops : List Op) (n : Nat)
     (hl : Dead (run (DB.init now aofTime) ops))
-    (hv : Within (run (DB.init now aofTime) ops) n) :
+    (hu : ∀ k ∈ (run (DB.init now aofTime) ops).keys, ∀ r ∈ k.recs,
+      (∀ s, r.tSched = some s → s.visit ≤ (run (DB.init now aofTime) ops).now + n) ∧
+      (∀ s, r.eSched = some s → s.visit ≤ (run (DB.init now aofTime) ops).now + n)) :
     (run (DB.init now aofTime) (ops ++ List.replicate n .tick)).keys = [] ∧
     (run (DB.init now aofTime) (ops ++ List.replicate n .tick)).keyCount = 0 ∧
     ∀ k, ((run (DB.init now aofTime) (ops ++ List.replicate n .tick)).getKey k).cell = none ∧
          (run (DB.init now aofTime) (ops ++ List.replicate n .tick)).hasKey k = false := by
   rw [run_append]
   have hd := run_dbq (DB.init now aofTime) ops (DBQ.init now aofTime)
+  have hv : Within (run (DB.init now aofTime) ops) n := by
+    intro k hk r hr
+    have hf := scheduled_in_future now aofTime ops k hk r hr
+    have hb := hu k hk r hr
+    exact ⟨fun s hs => ⟨hf.1 s hs, hb.1 s hs⟩, fun s hs => ⟨hf.2 s hs, hb.2 s hs⟩⟩
   obtain ⟨h1, d1, w1⟩ := ticks_dead n _ hd hl hv
   exact drain_core h1.dbt (queues_empty_of_no_live h1 d1) w1
+
+/-- the latest second any wheel entry of `db` is scheduled for (`db.now` if there is none) -/
+def horizon (db : DB) : Nat :=
+  (db.keys.flatMap (fun k => k.recs.flatMap (fun r => (r.tSched.toList ++ r.eSched.toList).map (·.visit)))).foldl max db.now
+
+theorem le_foldl_max (l : List Nat) (a : Nat) : a ≤ l.foldl max a ∧ ∀ x ∈ l, x ≤ l.foldl max a := by
+  induction l generalizing a with
+  | nil => exact ⟨Nat.le_refl _, fun x hx => by simp at hx⟩
+  | cons y ys ih =>
+    simp only [List.foldl_cons]
+    obtain ⟨h1, h2⟩ := ih (max a y)
+    refine ⟨Nat.le_trans (Nat.le_max_left a y) h1, fun x hx => ?_⟩
+    rcases List.mem_cons.mp hx with h | h
+    · rw [h]; exact Nat.le_trans (Nat.le_max_right a y) h1
+    · exact h2 x h
+
+theorem visit_le_horizon (db : DB) : ∀ k ∈ db.keys, ∀ r ∈ k.recs,
+    (∀ s, r.tSched = some s → s.visit ≤ horizon db) ∧ (∀ s, r.eSched = some s → s.visit ≤ horizon db) := by
+  intro k hk r hr
+  have key : ∀ s : Sched, s ∈ r.tSched.toList ++ r.eSched.toList → s.visit ≤ horizon db := by
+    intro s hs
+    apply (le_foldl_max _ db.now).2
+    exact List.mem_flatMap.mpr ⟨k, hk, List.mem_flatMap.mpr ⟨r, hr, List.mem_map.mpr ⟨s, hs, rfl⟩⟩⟩
+  exact ⟨fun s hs => key s (List.mem_append_left _ (by rw [hs]; simp)), fun s hs => key s (List.mem_append_right _ (by rw [hs]; simp))⟩
+
+/-- **Drain, no hypothesis but "nothing is held or queued".** From any such reachable state, after the server clock has reached the
+latest second a wheel entry is still scheduled for, there is no key record, `KeyCount` is 0 and no key has a value. -/
+theorem drain_live_total (now aofTime : Nat) (ops : List Op) (hl : Dead (run (DB.init now aofTime) ops)) :
+    (run (DB.init now aofTime) (ops ++ List.replicate (horizon (run (DB.init now aofTime) ops) - (run (DB.init now aofTime) ops).now) .tick)).keys = [] ∧
+    (run (DB.init now aofTime) (ops ++ List.replicate (horizon (run (DB.init now aofTime) ops) - (run (DB.init now aofTime) ops).now) .tick)).keyCount = 0 ∧
+    ∀ k, ((run (DB.init now aofTime) (ops ++ List.replicate (horizon (run (DB.init now aofTime) ops) - (run (DB.init now aofTime) ops).now) .tick)).getKey k).cell = none ∧
+      (run (DB.init now aofTime) (ops ++ List.replicate (horizon (run (DB.init now aofTime) ops) - (run (DB.init now aofTime) ops).now) .tick)).hasKey k = false := by
+  apply drain_live now aofTime ops _ hl
+  intro k hk r hr
+  have h := visit_le_horizon (run (DB.init now aofTime) ops) k hk r hr
+  have h0 : (run (DB.init now aofTime) ops).now ≤ horizon (run (DB.init now aofTime) ops) := (le_foldl_max _ _).1
+  exact ⟨fun s hs => by have := h.1 s hs; omega, fun s hs => by have := h.2 s hs; omega⟩
 
 /-- **Drain (weaker, earlier form).** In a reachable state in which no queue of a key record holds an entry any more and every wheel
 entry has been swept, every lock record that is still un-freed has reference count 0 and the key record's own count is exactly the
@@ -209,7 +272,8 @@ example : (run (DB.init 100 0xff) opsD).keys.map (fun k => k.recs.map (fun r => 
     (run (DB.init 100 0xff) (opsD ++ [.tick, .tick, .tick, .tick])).keyCount = 0 := by decide
 
 /-! Non-vacuity of `drain_live`: after lock + unlock nothing is held or queued, the one wheel entry left is scheduled 2 s ahead -/
-example : Dead (run (DB.init 100 0xff) opsD) ∧ Within (run (DB.init 100 0xff) opsD) 2 :=
-  ⟨dead_of_b _ (by decide), within_of_b _ _ (by decide)⟩
+example : Dead (run (DB.init 100 0xff) opsD) ∧ Within (run (DB.init 100 0xff) opsD) 2 ∧
+    horizon (run (DB.init 100 0xff) opsD) - (run (DB.init 100 0xff) opsD).now = 2 :=
+  ⟨dead_of_b _ (by decide), within_of_b _ _ (by decide), by decide⟩
 
 end Slock.C17R
